@@ -214,7 +214,8 @@ class EphysAlfCreator(object):
 
     def make_depths(self):
         """Make spikes.depths.npy, clusters.depths.npy."""
-        channel_positions = self.model.channel_positions
+        # floating point depths: integer positions cannot hold the NaN of clusters without spikes
+        channel_positions = np.asarray(self.model.channel_positions, dtype=np.float64)
         assert channel_positions.ndim == 2
 
         spike_clusters = self.model.spike_clusters
@@ -257,12 +258,14 @@ class EphysAlfCreator(object):
             assert n_templates == self.model.n_templates
             templates = np.zeros((n_templates, n_wavsamps, ncw), dtype=np.float32)
             templates_inds = np.zeros((n_templates, ncw), dtype=np.int32)
+            # distances are computed on floating point positions (channel_positions.npy may hold
+            # integers, which cannot take the np.inf below and wrap around when unsigned)
+            positions = np.asarray(self.model.channel_positions, dtype=np.float64)
             # for each template, find the nearest channels to keep (one the same probe...)
             for t in np.arange(n_templates):
                 current_probe = self.model.channel_probes[self.model.templates_channels[t]]
                 channel_distance = np.sum(np.abs(
-                    self.model.channel_positions -
-                    self.model.channel_positions[self.model.templates_channels[t]]), axis=1)
+                    positions - positions[self.model.templates_channels[t]]), axis=1)
                 channel_distance[self.model.channel_probes != current_probe] += np.inf
                 templates_inds[t, :] = np.argsort(channel_distance)[:ncw]
                 templates[t, ...] = templates_v[t, :][:, templates_inds[t, :]]
@@ -282,9 +285,7 @@ class EphysAlfCreator(object):
                 channels = self.model.clusters_channels
 
                 current_probe = self.model.channel_probes[channels[t]]
-                channel_distance = np.sum(np.abs(
-                    self.model.channel_positions -
-                    self.model.channel_positions[channels[t]]), axis=1)
+                channel_distance = np.sum(np.abs(positions - positions[channels[t]]), axis=1)
                 channel_distance[self.model.channel_probes != current_probe] += np.inf
                 templates_inds[t, :] = np.argsort(channel_distance)[:ncw]
                 templates[t, ...] = clusters_v[t, :][:, templates_inds[t, :]]
